@@ -10,8 +10,14 @@
 (*                          byte-wise lexicographic order)                  *)
 (*   "f" float tokens       v = index into the pool                         *)
 (*         -inf < -1.5 < -0.0 < +0.0 < 1.5 < +inf < NaN                      *)
-(*       i.e. the IEEE-754 totalOrder the engine documents for sorting:     *)
-(*       NaN is larger than every number and -0.0 sorts before +0.0.        *)
+(*       i.e. IEEE-754 totalOrder (arrow total_cmp), the order the engine's *)
+(*       full sorts implement: NaN is larger than every number.  The        *)
+(*       relative order of the two zeros is NOT judged: SQL equality says   *)
+(*       -0.0 = +0.0 (Values.tla) and the engine itself is not uniform      *)
+(*       (full sorts order -0.0 before +0.0, the TopK threshold filter      *)
+(*       compares them equal), so the generator never puts both zeros into  *)
+(*       one column of a case; each zero alone is ordered against the       *)
+(*       other tokens.                                                      *)
 (* NULL placement is decided by `nf` alone, independent of `desc`.          *)
 (***************************************************************************)
 EXTENDS Values
